@@ -8,5 +8,5 @@ CONSTANTS
   RenameFirst = FALSE
   InPlace = FALSE
   NUploads = 2
-INVARIANTS Follows Atomic Durable
+INVARIANTS Follows FactorOK Atomic Durable
 CHECK_DEADLOCK FALSE
